@@ -201,6 +201,7 @@ CHECKS["C10"] = {
     "assumptions": ["tlsref.go implements RFC 8446 framing correctly"],
     "jobs": [
         {"pkg": SERVER, "run": "^TestVerif_C10_Wire$", "checks": {"quick": 150, "thorough": 10000}, "shards": {"thorough": 16}, "timeout": {"quick": 600}},
+        {"pkg": SERVER, "run": "^TestVerif_C10_Datagrams$", "checks": {"quick": 300, "thorough": 20000}, "shards": {"thorough": 8}, "timeout": {"quick": 600}},
     ],
 }
 
